@@ -8,6 +8,7 @@ for e in LEAVES:
 # decode direction on reference bytes: one quick harness per box type (its last quick shape), every
 # shape in the thorough tier; esds with a symbolic AudioSpecificConfig does not finish (hand-written
 # concrete-configuration harnesses in c05.rs instead)
+QUICK_DEC_TYPES = ("TkhdBox", "SttsBox", "StscBox", "StszBox", "TfhdBox", "TrunBox", "ElstBox", "EmsgBox", "AvcCBox", "HvcCBox", "VpccBox", "Tx3gBox", "MvexBox", "TrafBox", "DataBox", "FtypBox", "Co64Box", "MehdBox")
 last_quick = {}
 for e in LEAVES:
     if e["tier"] == "q":
@@ -15,7 +16,7 @@ for e in LEAVES:
 for e in LEAVES:
     if e["name"] in ("esds", "mp4a_esds"):
         continue
-    tier = "q" if last_quick.get(e["ty"]) == e["name"] else "t"
+    tier = "q" if (last_quick.get(e["ty"]) == e["name"] and e["ty"] in QUICK_DEC_TYPES) else "t"
     body += harness(tier, "h05dec", e["name"], e["unwind"],
                     "crate::c05_decode_ref!(%s, %s, %s, %d);" % (e["ty"], e["any"], e["ref"], nb(e)))
 write_gen("c05.rs", "c05.py", body)
